@@ -400,7 +400,7 @@ class Bundle:
         self.name, self.entry = name, entry
         self.overrides = overrides
         self.env = env if env is not None else make_env(name, entry, **overrides)
-        self.meta = meta(name, entry)
+        self.meta = meta(name, entry) if entry in menus()[name] else {}
         self.reset = jax.jit(self.env.reset)
         self.step = jax.jit(self.env.step)
         self._step_all = None
